@@ -146,6 +146,21 @@ harnesses! {
         reach!("end");
         core::mem::forget(r);
     }
+    fn c20_p_seq_mdna_mask_l16 [40] {
+        // 16 four-bit symbols fill the storage word exactly
+        let w = any_words::<2>();
+        let src = arr::<masked::Dna, 32, 2>(w);
+        let mut s = owned_cap(&src, 0, 16, 16);
+        s.mask();
+        let i = any_usize();
+        assume(i < 16);
+        let old = oracle::MDNA.from_bits[sym(&w, 0, 4, i) as usize] as u8;
+        let want = oracle::MDNA.from_bits[(old ^ 0b1111) as usize] as u8;
+        assert!(s.len() == 16, "C20.seq.length_preserved");
+        assert!(s.nth(i).to_bits() == want, "C20.seq.mdna_position_wise");
+        reach!(i == 15, "last symbol of the word");
+        core::mem::forget(s);
+    }
     fn c20_q_seq_mdna_mask_l2 [10] {
         let w = any_words::<2>();
         let src = arr::<masked::Dna, 32, 2>(w);
